@@ -152,13 +152,20 @@ def replay_chunks(kind, N, chunks, sigma=1.0):
             else:
                 shape.append(n), chs.append(tuple(ch)), offs.append(0)
         img = np.zeros(shape, dtype=np.float32)
+        planted = []
         for g in gs:
-            img[tuple(int(min(max(round(v), 0), n - 1)) + o for v, n, o in zip(g, N, offs))] = 1.0
+            vox = tuple(int(min(max(round(v), 1 if n > 2 else 0), n - 2 if n > 2 else n - 1)) + o for v, n, o in zip(g, N, offs))
+            img[vox] = 1.0
+            planted.append([v * scale for v in vox])
+        planted = np.array(sorted(planted))
         pk = LoGPicker(sigma=sigma) if kind == "log" else DoGPicker(sigma_low=sigma, sigma_high=1.5 * sigma)
         try:
             ref, got = key(pk.pick_molecules(img, scale=scale)), key(pk.pick_molecules(da.from_array(img, chunks=tuple(chs)), scale=scale))
             same = ref.shape == got.shape and (ref.size == 0 or np.abs(ref - got).max() < 0.5 * scale)
-            out["same_geometry"] = {"image": shape, "chunks": [list(c) for c in chs], "numpy_picks": ref.round(2).tolist()[:4], "dask_picks": got.round(2).tolist()[:6]}
+            # a point particle away from the image border is picked at its own position (numpy and dask alike)
+            if len(gs) == 1 and same and ref.shape == planted.shape and np.abs(ref - planted).max() >= 0.5 * scale:
+                same = False
+            out["same_geometry"] = {"image": shape, "chunks": [list(c) for c in chs], "numpy_picks": ref.round(2).tolist()[:4], "dask_picks": got.round(2).tolist()[:6], "planted_at": planted.round(2).tolist()}
         except Exception as e:
             same = False
             out["same_geometry"] = {"image": shape, "chunks": [list(c) for c in chs], "raised": repr(e)[:200]}
@@ -314,6 +321,12 @@ def _quats(K):
     return [tuple(Fraction(v) for v in q) for q in pool[:K]]
 
 
+def ndi_zoom_smooth(a):
+    from scipy import ndimage as ndi
+
+    return ndi.gaussian_filter(a, 1.0).astype(np.float32)
+
+
 def replay_template(cex):
     """installed library: an even / odd template planted at positions around a chunk boundary, one rotated copy; numpy vs dask"""
     import dask.array as da
@@ -337,6 +350,24 @@ def replay_template(cex):
                 continue
             if not (np.shape(a) == (1, 3) and np.allclose(a, want) and np.shape(b) == (1, 3) and np.allclose(b, want)):
                 bad.append({"template": list(s), "centre": want[0], "numpy": a, "dask_chunks_(20,20,12)": b})
+    # one matcher with an ImageProvider template used at two scales
+    from acryo import pipe
+
+    t16 = rng.normal(size=(12, 12, 12)).astype(np.float32)
+    t16 = ndi_zoom_smooth(t16)
+    try:
+        tm = ZNCCTemplateMatcher(pipe.from_array(t16, original_scale=0.5))
+        for sc in (0.5, 1.0):
+            tt = pipe.from_array(t16, original_scale=0.5)(sc)
+            n = tt.shape[0]
+            big = rng.normal(size=(3 * n, 3 * n, 3 * n)).astype(np.float32) * 0.02
+            big[n:2 * n, n:2 * n, n:2 * n] += tt
+            m = tm.pick_molecules(big, sc, min_score=0.7)
+            want = [(n + (n - 1) / 2) * sc] * 3
+            if not (m.count() == 1 and np.allclose(m.pos[0], want, atol=0.51 * sc)):
+                bad.append({"provider-template-at-scale": sc, "picks": np.round(m.pos, 2).tolist(), "want": want})
+    except Exception as e:
+        bad.append({"provider-template": "raised", "exc": repr(e)[:150]})
     # a smooth particle centred 1.5 / 1 voxels before a chunk border: the next block must not report its shoulder
     for s_ in (8, 7):
         zz = np.indices((s_,) * 3).astype(float)
@@ -439,6 +470,40 @@ def sec_template(rec, shape=(4, 2, 6), K=3, patches=None):
                     g.append(zr(M[i, j]) == zr(R[j, i]))
             rec.query(f"{tag}/bank/template{k}=reference-rotated-by-the-searched-rotation-about-the-box-centre", [], z3.And(*g), key="C20/tm/rotation-pivot", replay=lambda cex: replay_template(cex), twin=False)
             rec.fact(f"{tag}/bank/template{k}/order-and-no-prefilter", cal.get("order") == tm.order and cal.get("prefilter") is False, key="C20/tm/bank-args", detail={}, reproduced=None)
+
+    # the same matcher used at two scales with an ImageProvider template: each call uses the template provided at its own scale
+    class Prov(PB.ImageProvider):
+        def __init__(self):
+            pass
+
+        def provide(self, scale):
+            t = TagArr(shape, {"provided_at": scale})
+            return t
+
+        __call__ = provide
+
+    s1, s2 = real("scale"), real("scale2")
+
+    def two_scales():
+        tm = PC.ZNCCTemplateMatcher(Prov())
+        del calls[:]
+        tm.get_params_and_depth(s1)
+        first = list(calls)
+        del calls[:]
+        tm.get_params_and_depth(s2)
+        return first, list(calls)
+
+    for pi, p in enumerate(explore(two_scales, assumptions=[s1.e > 0, s2.e > 0, s1.e != s2.e], max_paths=5)):
+        if not p.ok:
+            rec.fact(f"{tag}/provider/path{pi}/runs", False, key="C20/tm/provider-raises", detail={"exc": repr(p.exc)[:300]}, reproduced=replay_template({"__provider__": True})[0])
+            continue
+        for name, cl_, sc in (("first-call", p.result[0], s1), ("second-call", p.result[1], s2)):
+            tags_ = [getattr(c["input"], "rec", None) for c in cl_]
+            okp = len(cl_) == 1 and isinstance(tags_[0], dict) and "provided_at" in tags_[0]
+            rec.fact(f"{tag}/provider/path{pi}/{name}/template-comes-from-the-provider", bool(okp), key="C20/tm/provider", detail={"n": len(cl_)}, reproduced=True if okp else replay_template({"__provider__": True})[0])
+            if okp:
+                rec.query(f"{tag}/provider/path{pi}/{name}/provided-at-the-scale-of-this-call", [s1.e > 0, s2.e > 0, s1.e != s2.e, p.condition()], zr(tags_[0]["provided_at"]) == sc.e, key="C20/tm/stale-provider-template",
+                          replay=lambda cex: replay_template({"__provider__": True}))
 
     # pick_in_chunk: landscape position -> block coordinate, arg-max -> quaternion
     n_blk = tuple(s_ + 4 for s_ in shape)
